@@ -159,6 +159,7 @@ struct Stats {
     superseded_outstanding: u64,
     decisions_with_outstanding_after_stale: u64,
     nontrivial: u64,
+    redeclared: u64,
 }
 
 fn expected_timeout(rtt: Duration, max: Duration) -> Duration {
@@ -355,6 +356,9 @@ async fn run_history(max: Duration, ops: &[Op], st: &mut Stats) -> Result<bool, 
                 let stale = latest.as_ref().is_some_and(|l| l.stale_seen);
                 let sfx = if stale { "-after-stale-pong" } else { "" };
                 match (&latest, ready) {
+                    // the latest ping is still unanswered past its deadline: declaring again is
+                    // not excluded by the statement
+                    (None, true) if declared.is_some() => st.redeclared += 1,
                     (None, true) => {
                         return Err((
                             "C14:timeout-completed-without-outstanding-ping".into(),
@@ -397,6 +401,7 @@ async fn run_history(max: Duration, ops: &[Op], st: &mut Stats) -> Result<bool, 
                 let stale = latest.as_ref().is_some_and(|l| l.stale_seen);
                 let sfx = if stale { "-after-stale-pong" } else { "" };
                 match (&latest, r.is_ok()) {
+                    (None, true) if declared.is_some() => st.redeclared += 1,
                     (None, true) => {
                         return Err((
                             "C14:timeout-completed-without-outstanding-ping".into(),
@@ -480,6 +485,7 @@ fn flush(rep: &Report, st: &Stats) {
         ("new_ping.superseding_outstanding", st.superseded_outstanding),
         ("decision.with_outstanding_after_stale_pong", st.decisions_with_outstanding_after_stale),
         ("histories.nontrivial", st.nontrivial),
+        ("timeout.declared_again_for_same_ping(open)", st.redeclared),
     ] {
         rep.count(k, v);
     }
